@@ -24,8 +24,8 @@ second later than its ISO-8601 and float spellings).
 (j) SINCE accepts the spellings the documentation shows: the QUERY grammar's since_clause reaches both string_literal and integer.
 Does NOT decide the parser's arithmetic (digit-count boundaries, pre-1970, offsets), float epochs, or how ambiguous/skipped local times are resolved.
 """
-FLOOR = 10
-REQUIRED = ["C16.a", "C16.b", "C16.c", "C16.d", "C16.e", "C16.f", "C16.g", "C16.h", "C16.i", "C16.j"]
+FLOOR = 11
+REQUIRED = ["C16.a", "C16.b", "C16.c", "C16.d", "C16.e", "C16.f", "C16.g", "C16.h", "C16.i", "C16.j", "C16.k"]
 
 CHRONO_PARSE = re.compile(r"^chrono::.*(parse_from_rfc3339|parse_from_rfc2822|parse_from_str|parse_and_remainder|FromStr>::from_str)$|^(time|humantime|dateparser|iso8601)::")
 PARSER_FNS = {"shared::time::TimeParser::parse_str_to_epoch_seconds", "shared::time::TimeParser::normalize_json_value"}
@@ -359,3 +359,43 @@ def run(ctx):
             return [("since-spelling-rejected:%s" % ",".join(m_[8:] for m_ in miss), "the SINCE clause of QUERY does not accept %s (docs/src/commands/query.md shows both a quoted literal and a bare epoch)" % [m_[8:] for m_ in miss], None)]
         return []
     ctx.run("C16.j", "K4 REACH", "QUERY grammar: since_clause", "SINCE accepts quoted literals and bare epochs", j_)
+
+    def k_(inst):
+        """`one instant, one value`: a JSON number in a time field is an epoch in s / ms / us / ns whatever its spelling. All numeric
+        branches of TimeParser::normalize_json_value (as_i64, as_u64, as_f64) go through normalize_integer_epoch: the value stored
+        for a float derives from that call, like the value stored for an integer."""
+        bad = []
+        n = F.fn("TimeParser::normalize_json_value")
+        nie = [c for c in n.calls if not c.cleanup and c.nname.endswith("TimeParser::normalize_integer_epoch")]
+        views = {}
+        for c in n.calls:
+            if not c.cleanup and re.search(r"Number::as_(i64|u64|f64)$", c.nname):
+                views[c.nname.split("::")[-1]] = c
+        if "as_f64" not in views or not nie:
+            raise AnchorMissing("as_f64 / normalize_integer_epoch in TimeParser::normalize_json_value")
+
+        def scaled(view):
+            """a normalize_integer_epoch call whose argument derives from this view of the number (through floor / casts)"""
+            fl = {l for l, _ in n.flow_forward(view.dest)}
+            for c in nie:
+                src = c.args[0]
+                for _ in range(4):
+                    if n._origin_locals(src) & fl:
+                        return c
+                    L = [l for l in n.origins(src) if l[0] == "call"]
+                    if not L:
+                        break
+                    if L[0][2] == view.bb:
+                        return c
+                    cc = n.call_at(L[0][2])
+                    if not cc.args:
+                        break
+                    src = cc.args[0]
+            return None
+        for nm, v in sorted(views.items()):
+            c = scaled(v)
+            inst.sites.append("%s @ %s -> normalize_integer_epoch: %s" % (nm, sp(n, v.bb), bool(c)))
+            if c is None:
+                bad.append(("numeric-spelling-not-scaled:%s" % nm, "TimeParser::normalize_json_value stores the %s view of a number without the s / ms / us / ns scaling of normalize_integer_epoch: the same instant written as a float (1709652600000.0) and as an integer is stored as two different values" % nm, sp(n, v.bb)))
+        return bad
+    ctx.run("C16.k", "K11 SIB", "TimeParser::normalize_json_value", "integer and float spellings of an epoch are scaled alike", k_)
